@@ -352,10 +352,14 @@ def lock_phase(tree: Tree, g: CFG, owner):
         return out
 
     inline = acq_calls(g, rd)
-    loops = [lp for lp in g.live if lp.kind == "for" and any(any(x is c for s2 in lp.ast.body for x in ast.walk(s2)) for _, c in inline)]
+    def inside(lp, c):
+        # in the body, or in the header (a comprehension that acquires everything before the loop body runs)
+        return any(x is c for s2 in lp.ast.body for x in ast.walk(s2)) or any(x is c for x in ast.walk(lp.ast.iter))
+
+    loops = [lp for lp in g.live if lp.kind == "for" and any(inside(lp, c) for _, c in inline)]
     if loops:
         done = [b for b in g.live if b.kind == "branch" and b.extra["test"] in loops and b.extra["polarity"] == "done"]
-        sites = [(owner, c) for lp in loops for _, c in inline if any(x is c for s2 in lp.ast.body for x in ast.walk(s2))]
+        sites = [(owner, c) for lp in loops for _, c in inline if inside(lp, c)]
         return done, sites, None, loops
     if owner.cls is None:
         return [], [], None, []
